@@ -18,6 +18,7 @@ Translated (function -> generated definition):
   router.Router.invoke_request                       gen_invoke_request          : comp
   router.Router.handle_request (from `response = _call_view(...)` on)   gen_handle_request_view : comp
   httpexceptions.default_exceptionresponse_view      gen_default_exceptionresponse_view : V
+  config/views.MultiView.__call__                    gen_mv_call                 : comp
 
 === CONTROL FLOW (mechanical, continuation passing; the names of locals never reach the output except as binder hints) ===
   s1; s2; ...           the translation of s1 receives the translation of the rest as its continuation
@@ -87,6 +88,7 @@ TRANSLATED = [
     'pyramid/router.py:Router.invoke_request',
     'pyramid/router.py:Router.handle_request',
     'pyramid/httpexceptions.py:default_exceptionresponse_view',
+    'pyramid/config/views.py:MultiView.__call__',
 ]
 
 HERE = os.path.dirname(os.path.abspath(__file__))
@@ -98,8 +100,8 @@ COQTY = {'comp': 'comp', 'res': 'res', 'bool': 'bool', 'otext': 'option text', '
          'N': 'N', 'oN': 'option N', 'views': 'list component', 'view': 'component', 'oview': 'option component',
          'pcall': 'PC', 'opcall': 'option PC', 'pred': 'PR', 'opred': 'option PR', 'vtypes': 'list vtype',
          'ovtypes': 'option (list vtype)', 'vtype': 'vtype', 'pairNN': '(N * N)%type', 'listpair': 'list (N * N)', 'listN': 'list N',
-         'V': 'V', 'ctx': 'ctx', 'bcomp': '(trace * bool)%type'}
-ELEM = {'views': 'view', 'vtypes': 'vtype', 'listpair': 'pairNN', 'listN': 'N'}
+         'V': 'V', 'ctx': 'ctx', 'bcomp': '(trace * bool)%type', 'entries': 'list entry', 'entry3': 'entry'}
+ELEM = {'views': 'view', 'vtypes': 'vtype', 'listpair': 'pairNN', 'listN': 'N', 'entries': 'entry3'}
 
 
 class Problem(Exception):
@@ -658,6 +660,12 @@ class Fn:
                 and all(isinstance(e, ast.Name) for e in st.target.elts):
             eb[st.target.elts[0].id] = Val('(fst %s)' % xn, 'N')
             eb[st.target.elts[1].id] = Val('(snd %s)' % xn, 'N')
+        elif isinstance(st.target, ast.Tuple) and ety == 'entry3' and len(st.target.elts) == 3 \
+                and all(isinstance(e, ast.Name) for e in st.target.elts):
+            # an entry of MultiView.views / media_views: (order, view, phash); only the view is used by the translated code
+            eb[st.target.elts[0].id] = ERASED
+            eb[st.target.elts[1].id] = Val('(entry_view %s)' % xn, 'view')
+            eb[st.target.elts[2].id] = ERASED
         else:
             self.bad(st, 'loop target')
 
@@ -889,6 +897,17 @@ def build_specs(npr_coq):
         isinstance=lambda fn, t, e: (
             'context_is_exception' if len(t.args) == 2 and getattr(fn.ev(t.args[0], e), 'ctxparam', False) and u(t.args[1]) == 'Exception'
             else fn.bad(t, 'isinstance outside the table')))
+    # ---------------- MultiView.__call__
+    S['mv_call'] = dict(
+        rel='pyramid/config/views.py', qual='MultiView.__call__', gen='gen_mv_call', ret='comp',
+        sig='(call : component -> comp) (views : list entry)',
+        params=[_k('tt', 'mv'), _k('tt', 'ctx'), _k('tt', 'request')],
+        attrs={'<mv>.name': ERASED},
+        calls={'<mv>.get_views': lambda fn, a, k, n, e: (
+            _k('views', 'entries') if [x.ty for x in a] == ['request'] and not k else fn.bad(n, 'get_views is not called with (request)'))},
+        apply={'view': lambda fn, v, a, k, n: (
+            _k('(call %s)' % v.coq, 'comp') if [x.ty for x in a] == ['ctx', 'request'] and not k else fn.bad(n, 'view arguments'))},
+        globals={'PredicateMismatch': ERASED})
     return S
 
 
@@ -1014,10 +1033,12 @@ def translate_one(src, name, spec):
 
 
 ORDER = ['secured_permission', 'secured_call', 'secured_view_deriver', 'authdebug_view', 'find_views', 'call_view', 'excview_tween',
-         'error_handler', 'invoke_exception_view', 'invoke_request', 'handle_request_view', 'default_exceptionresponse_view']
+         'error_handler', 'invoke_exception_view', 'invoke_request', 'handle_request_view', 'default_exceptionresponse_view',
+         'mv_call']
 PRELUDE = '''Definition opt_text_eqb (o : option text) (t : text) : bool := match o with Some x => text_eqb x t | None => false end.
 Definition nonempty_views (l : list component) : bool := match l with [] => false | _ => true end.
 Definition view_classifier0 : N := view_classifier.      (* IViewClassifier *)
+Definition entry_view (e : entry) : component := CView (e_view e).   (* the view of an (order, view, phash) entry of a MultiView *)
 '''
 
 
@@ -1113,4 +1134,11 @@ def masked_shapes(src):
         if isinstance(n, ast.FunctionDef) and n.name == 'excview_tween':
             n.body = [ast.Pass()]
     out['pyramid/tweens.py'] = {'excview_tween_factory': hashlib.sha1(ast.dump(fd).encode()).hexdigest()[:16]}
+    # the class MultiView with the body of __call__ (translated: gen_mv_call) removed
+    m = F.Module(src, 'pyramid/config/views.py')
+    fd = F.strip_doc(m.find('MultiView'))
+    for n in ast.walk(fd):
+        if isinstance(n, ast.FunctionDef) and n.name == '__call__':
+            n.body = [ast.Pass()]
+    out['pyramid/config/views.py'] = {'MultiView': hashlib.sha1(ast.dump(fd).encode()).hexdigest()[:16]}
     return out
